@@ -48,6 +48,15 @@ def _queries(obj, d, plist, order, n):
     out["list"] = [list(p) for p in obj.evaluate_list([build.call_param(obj, us) for us in plist])]
     obj.delta = 1.0 / n
     out["evalpts"] = [list(p) for p in obj.evalpts]
+    # a sub-range given from its upper to its lower end (sampled in that order)
+    if pd == 1:
+        a, b = obj.domain
+        obj.evaluate(start=b - 0.125 * (b - a), stop=a + 0.125 * (b - a))
+        out["descending"] = [list(p) for p in obj.evalpts]
+    elif pd == 2:
+        (a, b), (c_, d_) = obj.domain
+        obj.evaluate(start_u=b, stop_u=a + 0.25 * (b - a), start_v=c_, stop_v=d_ - 0.25 * (d_ - c_))
+        out["descending"] = [list(p) for p in obj.evalpts]
     if pd == 1:
         out["ders"] = [[list(v) for v in obj.derivatives(us[0], order)] for us in plist]
     elif pd == 2:
@@ -93,7 +102,7 @@ def _norm_cases(draw, tier):
     d = draw(gen.spline(max_p=4, max_extra=4, unclamped="maybe", affine_range=True, normalize=True, vol_max_p=2, vol_max_extra=2))
     pdim = len(d["degree"])
     return {"defn": d, "params": draw(st.lists(gen.params(pdim), min_size=1, max_size=3)), "order": draw(st.integers(0, max(d["degree"]) + 1)),
-            "n": draw(st.integers(2, 9 if pdim < 3 else 4)), "op": draw(st.sampled_from(["none", "insert", "refine", "split", "tessellate", "sample_size"])),
+            "n": draw(st.integers(2, 9 if pdim < 3 else 4)), "op": draw(st.sampled_from(["none", "insert", "refine", "split", "tessellate", "sample_size", "rotate"])),
             "ins": draw(ins_desc()), "k": draw(st.integers(0, 2))}
 
 
@@ -203,6 +212,13 @@ def check_normalize(case, ctx):
             a.delta = 0.125
             b.delta = 0.125
             ctx.check(_rel_eq([list(p) for p in a.evalpts], [list(p) for p in b.evalpts]), "normalize-split", "split pieces differ between the two settings")
+    elif op == "rotate":
+        # a transformation that looks up the start point of the shape through its domain
+        rn = operations.rotate(N, 37.5, axis=case["k"])
+        rf = operations.rotate(Fo, 37.5, axis=case["k"])
+        rn.delta = rf.delta = 1.0 / min(n, 4)
+        ctx.check(_rel_eq([list(p) for p in rn.evalpts], [list(p) for p in rf.evalpts]), "normalize-rotate",
+                  "the shape rotated by 37.5 degrees about axis %d differs between the two settings" % case["k"])
     elif op == "tessellate" and pd == 2:
         N.delta = 1.0 / max(n, 2)
         Fo.delta = 1.0 / max(n, 2)
